@@ -154,6 +154,7 @@ type PolicySpec struct {
 	Period  D    `json:"period,omitempty"`
 	SuccThr uint `json:"succ_thr,omitempty"`
 	SuccCap uint `json:"succ_cap,omitempty"`
+	NoListeners int `json:"no_listeners,omitempty"` // breaker: bit mask of state listeners NOT registered (1 open, 2 half-open, 4 close, 8 generic)
 
 	// limiter
 	Smooth   bool `json:"smooth,omitempty"`
